@@ -372,6 +372,76 @@ def session_binding(chk, thorough):
                 api2.close()
             asyncio.run(go2())
             nsess += 1
+    # the wire as the AGENT sees it: one datagram per grant, also when replies are slow (later than half the timeout) or missing -
+    # whatever the layers below the Python client do on their own (a retransmission is a request on the wire like any other)
+    class NoSink:
+        n = 0
+
+        def emit(self, e):
+            pass
+    import time as _time
+    for cn in ("v2c", "v3-md5"):
+        cfg = std[cn]
+        for client in ("sync", "async"):
+            for variant in ("policer", "limit_rps"):
+                kw = dict(policer=Rec()) if variant == "policer" else dict(limit_rps=150)
+                fates = ["ok", "slow", "ok", "lost", "slow", "ok", "lost", "ok"]
+
+                def make(agent, cfgref, st):
+                    inner = walks.honest_responder(agent, cfgref, mib, 2)
+
+                    def respond(req):
+                        if req.broken or not req.names:
+                            return inner(req)                     # discovery / time synchronisation: not the caller's requests
+                        emit({"ev": "Wire"})
+                        fate = fates[st["k"] % len(fates)]
+                        st["k"] += 1
+                        if fate == "lost":
+                            return []
+                        if fate == "slow" and client == "sync":
+                            _time.sleep(0.26)                      # of a 0.4 s timeout (the agent thread sleeps, not the client)
+                        return inner(req)
+                    return respond
+                if client == "sync":
+                    holder = {}
+                    emit({"ev": "Sess"})
+                    api = apidrv.SyncApi(NoSink(), cfg, lambda req: holder["r"](req), timeout=0.4, **kw)
+                    if variant == "limit_rps":
+                        wrap(api.session)
+                    stc = {"k": 0}
+                    holder["r"] = make(ag.Agent(engine=cfg.engine or None) if cfg.engine else ag.Agent(), api.cfgref, stc)
+                    for k in range(8):
+                        try:
+                            if k % 2:
+                                api.session.get_many(["1.3.6.1.4.1.9999.5.1", "1.3.6.1.4.1.9999.5.2"])
+                            else:
+                                api.session.get("1.3.6.1.4.1.9999.5.%d" % (k % 5 + 1))
+                        except Exception:
+                            pass
+                        t_end = _time.monotonic() + 2.0               # the agent thread has recorded this request before the next grant is asked for
+                        while stc["k"] < k + 1 and _time.monotonic() < t_end:
+                            _time.sleep(0.002)
+                    _time.sleep(0.05)
+                    api.close()
+                else:
+                    async def go3():
+                        holder2 = {}
+                        emit({"ev": "Sess"})
+                        api2 = await apidrv.AsyncApi.create(NoSink(), cfg, lambda req: holder2["r"](req), timeout=0.25, **(dict(policer=Rec()) if variant == "policer" else kw))
+                        if variant == "limit_rps":
+                            wrap(api2.session)
+                        holder2["r"] = make(ag.Agent(engine=cfg.engine or None) if cfg.engine else ag.Agent(), api2.cfgref, {"k": 0})
+                        for k in range(8):
+                            try:
+                                if k % 2:
+                                    await api2.session.get_many(["1.3.6.1.4.1.9999.5.1", "1.3.6.1.4.1.9999.5.2"])
+                                else:
+                                    await api2.session.get("1.3.6.1.4.1.9999.5.%d" % (k % 5 + 1))
+                            except Exception:
+                                pass
+                        api2.close()
+                    asyncio.run(go3())
+                nsess += 1
     path = rec.close()
     nwire = sum(1 for e in rec.events if e["ev"] == "Wire")
     if nwire < 40:
